@@ -1,1 +1,100 @@
-/-! C19 - property theorems (declared with their full name `C19.<name>`; helper lemmas go to Lemmas/) -/
+import CohdlVerif.Lemmas.C19Arith
+
+/-!
+  C19 - property theorems about the mirror `Model/C19.lean` of `cohdl/std/_fixed.py` (with fixes/C19-*.patch
+  applied).  Numbers are compared as integers scaled by a common power of two: a fixed-point value of format
+  `[l:r]` with raw value `v` is the number `v * 2^r`.
+
+  FULL STATEMENT of the resize part (not closed in Lean; tied exhaustively on the grid by harness/c19.py):
+    theorem C19.resize_spec (l r v l' r' rs os) : r ≤ l → r' ≤ l' → inRangeS (l - r + 1) v →
+        resizeS l r v l' r' rs os = .ok (specResizeS r v l' r' rs os)            (and the same for U)
+  Proved below: `C19.resize_spec_partial` - the branch `l ≤ l' ∧ r' ≤ r` (no bit dropped), all styles.
+  Missing: the branches that drop bits on the left (`l > l'`, WRAP / SATURATE) and on the right (`r < r'`,
+  TRUNCATE / ROUND incl. the carry of the rounding increment), and the reduction of disjoint formats to them.
+-/
+open CohdlVerif.C19
+
+/-- SFixed `*`: result format `[l1+l2+1 : r1+r2]`, raw value the exact product - no error, for all formats and values -/
+theorem C19.mul_exact (l1 r1 v1 l2 r2 v2 : Int) (h1 : r1 ≤ l1) (h2 : r2 ≤ l2)
+    (hv1 : inRangeS (l1 - r1 + 1) v1) (hv2 : inRangeS (l2 - r2 + 1) v2) :
+    arithS .mul l1 r1 v1 l2 r2 v2 = .ok ⟨l1 + l2 + 1, (specArith .mul r1 v1 r2 v2).2, (specArith .mul r1 v1 r2 v2).1⟩ :=
+  mul_exactS l1 r1 v1 l2 r2 v2 h1 h2 hv1 hv2
+
+example : arithS .mul 1 (-1) (-4) 0 (-2) 3 = .ok ⟨2, -3, -12⟩ := by decide
+
+/-- UFixed `*` -/
+theorem C19.mul_exact_unsigned (l1 r1 v1 l2 r2 v2 : Int) (h1 : r1 ≤ l1) (h2 : r2 ≤ l2)
+    (hv1 : inRangeU (l1 - r1 + 1) v1) (hv2 : inRangeU (l2 - r2 + 1) v2) :
+    arithU .mul l1 r1 v1 l2 r2 v2 = .ok ⟨l1 + l2 + 1, (specArith .mul r1 v1 r2 v2).2, (specArith .mul r1 v1 r2 v2).1⟩ :=
+  mul_exactU l1 r1 v1 l2 r2 v2 h1 h2 hv1 hv2
+
+/-- SFixed `+`: result format `[max l + 1 : min r]`, raw value = exact sum in units of `2^(min r)` -/
+theorem C19.add_exact (l1 r1 v1 l2 r2 v2 : Int) (h1 : r1 ≤ l1) (h2 : r2 ≤ l2)
+    (hv1 : inRangeS (l1 - r1 + 1) v1) (hv2 : inRangeS (l2 - r2 + 1) v2) :
+    arithS .add l1 r1 v1 l2 r2 v2 = .ok ⟨max l1 l2 + 1, (specArith .add r1 v1 r2 v2).2, (specArith .add r1 v1 r2 v2).1⟩ :=
+  add_exactS l1 r1 v1 l2 r2 v2 h1 h2 hv1 hv2
+
+example : arithS .add 1 (-1) (-4) 0 (-2) 3 = .ok ⟨2, -2, -5⟩ := by decide
+
+/-- UFixed `+` -/
+theorem C19.add_exact_unsigned (l1 r1 v1 l2 r2 v2 : Int) (h1 : r1 ≤ l1) (h2 : r2 ≤ l2)
+    (hv1 : inRangeU (l1 - r1 + 1) v1) (hv2 : inRangeU (l2 - r2 + 1) v2) :
+    arithU .add l1 r1 v1 l2 r2 v2 = .ok ⟨max l1 l2 + 1, (specArith .add r1 v1 r2 v2).2, (specArith .add r1 v1 r2 v2).1⟩ :=
+  add_exactU l1 r1 v1 l2 r2 v2 h1 h2 hv1 hv2
+
+/-- SFixed `-`: exact difference -/
+theorem C19.sub_exact (l1 r1 v1 l2 r2 v2 : Int) (h1 : r1 ≤ l1) (h2 : r2 ≤ l2)
+    (hv1 : inRangeS (l1 - r1 + 1) v1) (hv2 : inRangeS (l2 - r2 + 1) v2) :
+    arithS .sub l1 r1 v1 l2 r2 v2 = .ok ⟨max l1 l2 + 1, (specArith .sub r1 v1 r2 v2).2, (specArith .sub r1 v1 r2 v2).1⟩ :=
+  sub_exactS l1 r1 v1 l2 r2 v2 h1 h2 hv1 hv2
+
+example : arithS .sub 0 0 (-1) 0 0 0 = .ok ⟨1, 0, -1⟩ := by decide
+
+/-- UFixed `-`: the exact difference modulo the range `2^width` of the result format -/
+theorem C19.sub_exact_unsigned (l1 r1 v1 l2 r2 v2 : Int) (h1 : r1 ≤ l1) (h2 : r2 ≤ l2)
+    (hv1 : inRangeU (l1 - r1 + 1) v1) (hv2 : inRangeU (l2 - r2 + 1) v2) :
+    arithU .sub l1 r1 v1 l2 r2 v2 =
+      .ok ⟨max l1 l2 + 1, (specArith .sub r1 v1 r2 v2).2,
+           (specArith .sub r1 v1 r2 v2).1 % p2 (max l1 l2 + 1 - (specArith .sub r1 v1 r2 v2).2 + 1)⟩ :=
+  sub_exactU l1 r1 v1 l2 r2 v2 h1 h2 hv1 hv2
+
+example : arithU .sub 0 0 0 0 (-1) 1 = .ok ⟨1, -1, 7⟩ := by decide
+
+/-- resize, branch `l ≤ l'`, `r' ≤ r` (the target covers the source), every round / overflow style:
+    the mirror returns the value of the spec, which is the source number itself -/
+theorem C19.resize_spec_partial (l r v l' r' : Int) (rs : Round) (os : Ovf) (hlr : r ≤ l)
+    (hv : inRangeS (l - r + 1) v) (hl : l ≤ l') (hr : r' ≤ r) :
+    resizeS l r v l' r' rs os = .ok (specResizeS r v l' r' rs os) := by
+  rw [resizeS_extend l r v l' r' rs os hlr hv hl hr, specS_extend l r v l' r' rs os hlr hv hl hr]
+
+example : resizeS 0 (-1) (-2) 2 (-2) .round .saturate = .ok (-4) := by decide
+
+/-- constructor from another format: accepted exactly when the target covers the source (a type-level
+    decision), and then the represented number is preserved (`raw' * 2^tr = v * 2^sr`) -/
+theorem C19.ctor_preserves (tl tr sl sr v : Int) (hs : sr ≤ sl) (hv : inRangeS (sl - sr + 1) v) :
+    (sl ≤ tl ∧ tr ≤ sr → ctorFixedS tl tr sl sr v = .ok (v * p2 (sr - tr))) ∧
+    (¬ (sl ≤ tl ∧ tr ≤ sr) → ∃ e, ctorFixedS tl tr sl sr v = .error e) :=
+  ⟨fun h => ctorFixedS_covers tl tr sl sr v hs hv h.1 h.2, ctorFixedS_rejects tl tr sl sr v⟩
+
+example : ctorFixedS 1 (-2) 1 (-1) (-3) = .ok (-6) := by decide
+
+theorem C19.ctor_preserves_unsigned (tl tr sl sr v : Int) (hs : sr ≤ sl) (hv : inRangeU (sl - sr + 1) v)
+    (hl : sl ≤ tl) (hr : tr ≤ sr) : ctorFixedU tl tr sl sr v = .ok (v * p2 (sr - tr)) :=
+  ctorFixedU_covers tl tr sl sr v hs hv hl hr
+
+/-- constructor from `Signed[sw]`: accepted when `sw` bits plus `-r` zeros fit, value preserved (`raw * 2^r = v`) -/
+theorem C19.ctor_preserves_signed (l r sw v : Int) (hlr : r ≤ l) (hsw : 1 ≤ sw) (hv : inRangeS sw v)
+    (hr : r ≤ 0) (hfit : sw - r ≤ l - r + 1) : ctorSignedS l r sw v = .ok (v * p2 (-r)) :=
+  ctorSignedS_ok l r sw v hlr hsw hv hr hfit
+
+example : ctorSignedS 2 (-1) 2 (-2) = .ok (-4) := by decide
+
+/-- `__eq__` of two values of the same format compares the raw values, i.e. the represented numbers
+    (scaled by the common exponent `2^k`) -/
+theorem C19.eq_compares_numbers_partial (v1 v2 k : Int) : (v1 == v2) = true ↔ v1 * p2 k = v2 * p2 k := by
+  have hk := p2_pos k
+  constructor
+  · intro h; rw [eq_of_beq h]
+  · intro h
+    have : v1 = v2 := Int.eq_of_mul_eq_mul_right (ne_of_gt hk) h
+    simp [this]
